@@ -81,8 +81,8 @@ theorem elems_ty_step (_τ : Nat) (elem : Ref) (j : Nat)
         exact decodeElems_step env dec elem j hk t _ hcl v _ h1 hlt n vs rest h2
 
 theorem goodElems (τ : Nat) (elem : Ref)
-    (hgood : ∀ j, j < τ → (look I j).sup = true → Good I enc dec conf j)
-    (hsane : elemSane env I τ elem = true) (hsup : elemSup env I elem = true) :
+    (hgood : ∀ j, j < τ → Good I enc dec conf j)
+    (hsane : elemSane env I τ elem = true) :
     ∀ vs : List Val, vs.all (conformsRef env conf elem) = true →
       ∃ ts, encodeElems env enc elem vs = .ok ts ∧
         (ts = [] → vs = []) ∧
@@ -101,7 +101,6 @@ theorem goodElems (τ : Nat) (elem : Ref)
     simp only [List.all_cons, Bool.and_eq_true] at hc
     obtain ⟨ts', he', hnil', hhd', hd'⟩ := ih hc.2
     unfold elemSane at hsane
-    unfold elemSup at hsup
     -- one element: a non-empty run `t :: r1` that decodes in front of the next element
     have hone : ∃ t r1, t.cls ≠ .closing ∧ (∃ p ∈ elemFirst env I elem, p.matches t = true) ∧
         encodeElems env enc elem (v :: vs) = .ok ((t :: r1) ++ ts') ∧
@@ -132,34 +131,57 @@ theorem goodElems (τ : Nat) (elem : Ref)
               have := hd' rest n hs hn'
               simp [decodeElems, hk, prim_app_roundtrip hcv, this]
         | _ => simp at hcv
-      | anyAtomic => rw [hk] at hsup; simp at hsup
-      | bad => rw [hk] at hsup; simp at hsup
+      | anyAtomic =>
+        have hr : elem = .anyAtomic := by
+          cases elem with
+          | prim b => simp [kindOf] at hk
+          | anyAtomic => rfl
+          | ty i => simp only [kindOf] at hk; split at hk <;> simp at hk
+        subst hr
+        have hcv := hc.1
+        unfold conformsRef at hcv
+        rw [hk] at hcv
+        cases v with
+        | atom a lvt data =>
+          simp only [Bool.and_eq_true, decide_eq_true_eq] at hcv
+          refine ⟨⟨.app, a, lvt, data⟩, [], by simp, ?_, ?_, ?_⟩
+          · simp [elemFirst, hk, Pat.matches]
+          · simp [encodeElems, hk, encodeLeaf, leafTag, he']
+          · intro rest n hs hn
+            cases n with
+            | zero => simp at hn
+            | succ n =>
+              have hn' : (ts' ++ rest).length ≤ n := by simp at hn ⊢; omega
+              have := hd' rest n hs hn'
+              simp [decodeElems, hk, atom_roundtrip hcv.1 hcv.2, this]
+        | _ => simp at hcv
+      | bad => rw [hk] at hsane; simp at hsane
       | seqOf j =>
-        rw [hk] at hsane hsup
+        rw [hk] at hsane
         simp only [Bool.and_eq_true, decide_eq_true_eq, Bool.not_eq_eq_eq_not, Bool.not_true] at hsane
         have hcj : conf j v = true := by
           have := hc.1; unfold conformsRef at this; rw [hk] at this; simpa using this
         have hef : elemFirst env I elem = (look I j).first := by simp [elemFirst, hk]
         rw [hef] at hhd' ⊢
-        exact elems_ty_step env I enc dec conf τ elem j (Or.inl hk) (hgood j hsane.1.1 hsup) hsane.1.2
+        exact elems_ty_step env I enc dec conf τ elem j (Or.inl hk) (hgood j hsane.1.1) hsane.1.2
           hsane.2 v hcj vs ts' he' hhd' hd'
       | listOf j =>
-        rw [hk] at hsane hsup
+        rw [hk] at hsane
         simp only [Bool.and_eq_true, decide_eq_true_eq, Bool.not_eq_eq_eq_not, Bool.not_true] at hsane
         have hcj : conf j v = true := by
           have := hc.1; unfold conformsRef at this; rw [hk] at this; simpa using this
         have hef : elemFirst env I elem = (look I j).first := by simp [elemFirst, hk]
         rw [hef] at hhd' ⊢
-        exact elems_ty_step env I enc dec conf τ elem j (Or.inr (Or.inl hk)) (hgood j hsane.1.1 hsup) hsane.1.2
+        exact elems_ty_step env I enc dec conf τ elem j (Or.inr (Or.inl hk)) (hgood j hsane.1.1) hsane.1.2
           hsane.2 v hcj vs ts' he' hhd' hd'
       | struct j =>
-        rw [hk] at hsane hsup
+        rw [hk] at hsane
         simp only [Bool.and_eq_true, decide_eq_true_eq, Bool.not_eq_eq_eq_not, Bool.not_true] at hsane
         have hcj : conf j v = true := by
           have := hc.1; unfold conformsRef at this; rw [hk] at this; simpa using this
         have hef : elemFirst env I elem = (look I j).first := by simp [elemFirst, hk]
         rw [hef] at hhd' ⊢
-        exact elems_ty_step env I enc dec conf τ elem j (Or.inr (Or.inr hk)) (hgood j hsane.1.1 hsup) hsane.1.2
+        exact elems_ty_step env I enc dec conf τ elem j (Or.inr (Or.inr hk)) (hgood j hsane.1.1) hsane.1.2
           hsane.2 v hcj vs ts' he' hhd' hd'
     obtain ⟨t, r1, hcl, hp, he, hd⟩ := hone
     refine ⟨(t :: r1) ++ ts', he, by simp, ?_, ?_⟩
